@@ -104,7 +104,7 @@ EXTRA = {
 }
 
 CLAIMED['C07'] = ('raise-site / exception_cls typing against the forward-reference exception family (found by role) + abstract interpretation (the analyser\'s own interpreter, scripted resolvers and frames) of the forward-reference proxy\'s resolution property, of the proxy\'s resolver, of the scope maker and of the scope\'s __missing__ + ordering / handler analysis of the routes that can be handed a string',
-         'PARTIAL: the equality of verdicts between the string and the evaluated spelling of a program is NOT decided (it depends on frames, module tables and definition order at run time). Decided are structural clauses of the property, each a necessary condition: an unresolvable name can only surface as a forward-reference exception of beartype.roar; a failed resolution is not remembered and a successful one is (usable once defined, without re-decoration); the proxy resolves a name to the module attribute, else to the local of the still-running enclosing callable, else raises; a string is evaluated in a scope with Python\'s precedence (class body, enclosing locals, globals, builtins), built once per decorated callable, with the classes being decorated visible by name; an undefined name yields a stored proxy instead of failing the decoration; every route resolves a string before anything else looks at the hint and converts whatever the evaluation raises.',
+         'PARTIAL: the equality of verdicts between the string and the evaluated spelling of a program is NOT decided (it depends on frames, module tables and definition order at run time). Decided are structural clauses of the property, each a necessary condition: an unresolvable name can only surface as a forward-reference exception of beartype.roar; a failed resolution is not remembered and a successful one is (usable once defined, without re-decoration); the proxy resolves a name to the module attribute, else to the local of the still-running enclosing callable, else raises; a string is evaluated in a scope with Python\'s precedence (class body, enclosing locals, globals, builtins), built once per decorated callable, with the classes being decorated visible by name; an undefined name yields a stored proxy instead of failing the decoration; every route resolves a string before anything else looks at the hint and converts whatever the evaluation raises; a check against a proxy answers what isinstance / is_bearable answer for the referent and the very object.',
          AST_NOTE + ' The scripted resolvers, frames and expected outcomes are specification written from the property text.', 'DESIGN.md §4 C07, §5')
 
 NOT_YET = {}
